@@ -23,6 +23,10 @@ CMP = {'Lt': '<?', 'LtE': '<=?', 'Gt': '>?', 'GtE': '>=?'}
 
 PINNED = {
     # the tree the model was transcribed from: /repo at 08a7b16 (all five C13 repairs in)
+    'CustomHyper.custom_apply': '9cd5df790b3069159793',
+    'Float.custom_apply': 'b9d549648c0d242c2e2b',
+    'ManyOf.custom_apply': '34158237d83d27ae63c3',
+    'OneOf.custom_apply': 'b572b0bbf67d4f01b3b6',
     'Choices._decode': '4e306c8dc5cd0c42a0eb',
     'Choices._on_bound': '071993dbefc2c8835fdd',
     'Choices.dna_spec': 'fcd15349aa3670696025',
@@ -131,6 +135,9 @@ def translate():
       'Choices._decode': _method(cat, 'Choices', '_decode'), 'Choices.encode': _method(cat, 'Choices', 'encode'),
       'OneOf._decode': _method(cat, 'OneOf', '_decode'), 'OneOf.encode': _method(cat, 'OneOf', 'encode'),
       'CustomHyper._decode': _method(cus, 'CustomHyper', '_decode'), 'CustomHyper.encode': _method(cus, 'CustomHyper', 'encode'),
+      # the binding-time validation [bound] of Model/HyperTyping.v was transcribed from
+      'Float.custom_apply': _method(num, 'Float', 'custom_apply'), 'OneOf.custom_apply': _method(cat, 'OneOf', 'custom_apply'),
+      'ManyOf.custom_apply': _method(cat, 'ManyOf', 'custom_apply'), 'CustomHyper.custom_apply': _method(cus, 'CustomHyper', 'custom_apply'),
   }
   prints = {k: fingerprint(f) for k, f in fns.items()}
   bounds = {'min_value': 'lo', 'max_value': 'hi'}
